@@ -19,6 +19,9 @@ CHECKS.update(p_stream.CHECKS)
 CHECKS.update(p_strpool.CHECKS)
 CHECKS.update(p_threads.CHECKS)
 
+# coverage beyond the listed properties (bin/check X01): not part of MANIFEST.json
+CHECKS.update(p_strops.EXTRA)
+
 # executors to compile in setup (each check also builds what it needs on demand)
 PREBUILD = [
     dict(name="exec_conv"),
